@@ -30,13 +30,13 @@ REQUIRED = ["const_int_exact", "const_int_exact_partial", "const_int_exact_quo_m
             "toInt_exact_iff", "int64Val_exact_iff", "uint64Val_exact_iff",
             "representable_iff_range", "overflow_iff", "overflow_iff_shift", "overflow_iff_unary", "checkBinary_accepts_unrepresentable_quo_minint",
             "fold_eq_runtime_bin", "fold_eq_runtime_shl", "fold_eq_runtime_shr", "fold_eq_runtime_cmp", "fold_eq_runtime_neg",
-            "fold_eq_runtime_not", "fold_eq_runtime_conv", "dec_enc"]
+            "fold_eq_runtime_not", "fold_eq_runtime_conv", "dec_enc", "spaceship_exact", "fold_eq_runtime_ship"]
 
 WORD = 4                      # Wa: int / uint / uintptr are 32 bits
-KINDS = ["int", "int8", "int16", "int32", "int64", "uint", "uint8", "uint16", "uint32", "uint64", "uintptr"]
-SIGNEDK = {"int", "int8", "int16", "int32", "int64"}
+KINDS = ["int", "int8", "int16", "int32", "int64", "uint", "uint8", "uint16", "uint32", "uint64", "uintptr", "rune"]
+SIGNEDK = {"int", "int8", "int16", "int32", "int64", "rune"}
 WA_NAME = {"int8": "__wa_int8", "int16": "__wa_int16"}          # hidden names of the 8/16-bit signed kinds in Wa's universe
-RUNK_BOTH = ["uint8", "uint16", "int32", "uint32", "int64", "uint64"]   # kinds the wat back end supports, same width in Go
+RUNK_BOTH = ["uint8", "uint16", "int32", "uint32", "int64", "uint64", "rune"]   # kinds the wat back end supports, same width in Go
 RUNK_WA = ["int", "uint"]                                               # 32-bit in Wa only
 BOPS = ["add", "sub", "mul", "quo", "rem", "and", "or", "xor", "andnot"]
 SYM = {"add": "+", "sub": "-", "mul": "*", "quo": "/", "rem": "%", "and": "&", "or": "|", "xor": "^", "andnot": "&^",
@@ -48,7 +48,7 @@ SHIFT_BOUND = 1074
 
 def kbits(k, word=WORD):
     return {"int": word * 8, "uint": word * 8, "uintptr": word * 8, "int8": 8, "uint8": 8, "int16": 16, "uint16": 16,
-            "int32": 32, "uint32": 32, "int64": 64, "uint64": 64}[k]
+            "int32": 32, "uint32": 32, "int64": 64, "uint64": 64, "rune": 32}[k]
 
 
 def krange(k, word=WORD):
@@ -198,7 +198,7 @@ def gen_const_ops(ctx):
         ops.append(("u64val", v))
         ops.append(("bitlen", v))
         ops.append(("sign", v))
-    for k in KINDS + ["untyped"]:
+    for k in [k for k in KINDS if k != "rune"] + ["untyped"]:        # rune is the int32 kind under another name
         for word in (4, 8):
             vs = set()
             for kk in (7, 8, 15, 16, 31, 32, 63, 64):
@@ -219,6 +219,41 @@ def gen_const_ops(ctx):
         ops.append(("lit", f))
     for bad in ["08", "09", "0x", "0b", "0b2", "0o8", "0xg", "1a", "0o", "00", "007", "0_7", "1__0", "0x_", "_1", "1_", "0b_1", "0O17", "0o_17", "١"]:
         ops.append(("lit", bad))
+    # the Wa-only three-way comparison on Int constants: boundary pairs of every width, int64 differences that wrap, big values
+    sp = set()
+    for w in (8, 16, 32, 64):
+        for x in (-(1 << (w - 1)), (1 << (w - 1)) - 1, (1 << w) - 1, 0, 1, -1, -(1 << (w - 1)) - 1, 1 << w):
+            for y in (-(1 << (w - 1)), (1 << (w - 1)) - 1, (1 << w) - 1, 0, 1, -1, x, x + 1, x - 1):
+                sp.add((x, y))
+    for x in (1 << 100, -(1 << 100), (1 << 200) + 1):
+        for y in (x, x - 1, -x, 0, 1 << 63, -(1 << 63)):
+            sp.add((x, y)); sp.add((y, x))
+    for _ in range(150 if quick else 3000):
+        x = rng.choice(pool)
+        sp.add((x, rng.choice([x, x + 1, x - 1, rng.choice(pool), -x])))
+    for x, y in sorted(sp):
+        ops.append(("ship", x, y))
+    # floats: <=> and comparisons of (untyped, exact) float constants
+    fl = ["0.1", "0.2", "0.25", "1", "1.0", "-1", "1e400", "1e399", "-1e400", "1e-400", "0", "0.0", "16777217", "16777216.5", "0.30000000000000004", "0.3", "3", "1e5000", "9.99e4999"]
+    for _ in range(60 if quick else 600):
+        a_, b_ = rng.choice(fl), rng.choice(fl)
+        ops.append(("fship", a_, b_))
+        ops.append(("fcmp", rng.choice(CMPS), a_, b_))
+    # strings and bools
+    strs = ["", "a", "ab", "abc", "abd", "B", "aB", "z", "hello", "hellp", "\xe5\x87\xb9", "a b", "abcabcabcabcabcabcabcabcabcabcabcabcabc"]
+    hx = lambda t: (t.encode("latin-1") if any(ord(c) > 127 for c in t) else t.encode()).hex() or "-"
+    for _ in range(80 if quick else 800):
+        a_, b_ = rng.choice(strs), rng.choice(strs)
+        ops.append(("sship", hx(a_), hx(b_)))
+        ops.append(("scmp", rng.choice(CMPS), hx(a_), hx(b_)))
+        ops.append(("sbin", "add", hx(a_), hx(b_)))
+    for t in strs:
+        ops.append(("slen", hx(t)))
+    for x in ("true", "false"):
+        ops.append(("bnot", x))
+        for y in ("true", "false"):
+            for o in ("land", "lor", "eq", "ne"):
+                ops.append(("bbin", o, x, y))
     return ops
 
 
@@ -238,6 +273,9 @@ def corpus_ops():
                     if l and not l.startswith("#"):
                         out.append(parse_op(l))
     return out
+
+
+MODEL_OPS = ("bin", "un", "shift", "cmp", "ratint", "i64val", "u64val", "bitlen", "sign", "lit", "repr", "ship")
 
 
 def const_expected(op):
@@ -267,6 +305,28 @@ def const_expected(op):
         return "%d" % ((op[1] > 0) - (op[1] < 0))
     if k == "repr":
         return "true" if rep(op[1], op[3], op[2]) else "false"
+    if k == "ship":
+        return "%d" % ((op[1] > op[2]) - (op[1] < op[2]))
+    if k in ("fship", "fcmp"):
+        x, y = Fraction(op[-2]), Fraction(op[-1])
+        if k == "fship":
+            return "%d" % ((x > y) - (x < y))
+        return "true" if exact_cmp(op[1], x, y) else "false"
+    if k in ("sship", "scmp", "sbin", "slen"):
+        ub = lambda h: b"" if h == "-" else bytes.fromhex(str(h))
+        if k == "slen":
+            return "%d" % len(ub(op[1]))
+        x, y = ub(op[-2]), ub(op[-1])
+        if k == "sship":
+            return "%d" % ((x > y) - (x < y))
+        if k == "scmp":
+            return "true" if exact_cmp(op[1], x, y) else "false"
+        return "s:" + ((x + y).hex() or "-")
+    if k == "bbin":
+        x, y = op[2] == "true", op[3] == "true"
+        return "true" if {"land": x and y, "lor": x or y, "eq": x == y, "ne": x != y}[op[1]] else "false"
+    if k == "bnot":
+        return "false" if op[1] == "true" else "true"
     if k == "lit":
         v = pylit(op[1])
         ok_syntax = v is not None and "__" not in op[1] and not op[1].endswith("_") and not op[1].startswith("_") \
@@ -292,22 +352,37 @@ def lit_text(rng, v):
     return "%d" % v
 
 
-class Decl:
-    """one generated constant declaration: model op, python verdict, text for Wa and for Go"""
-    __slots__ = ("shape", "args", "expect", "text", "run")
+def named_prelude(lang, kinds=None):
+    """`type N_k k` for every basic kind (the named-type rendering of the generated texts)"""
+    out = []
+    for k in (kinds or KINDS):
+        out.append("type N_%s %s" % (k, WA_NAME.get(k, k) if lang == "wa" else k))
+    return "\n".join(out) + "\n"
 
-    def __init__(self, shape, args, expect, text, run=None):
-        self.shape, self.args, self.expect, self.text, self.run = shape, args, expect, text, run
+
+def subst_kinds(t, lang, named, kinds=None):
+    for k in (kinds or KINDS + ["float32", "float64", "string", "bool"]):
+        t = t.replace("@" + k + "@", ("N_" + k) if named else (WA_NAME.get(k, k) if lang == "wa" else k))
+    return t
+
+
+class Decl:
+    """one generated constant declaration: model op, python verdict, text for Wa and for Go.
+    named: operands / declared type are NAMED types `N_k` over the basic kind; waonly: uses a Wa-only operator (`<=>`)"""
+    __slots__ = ("shape", "args", "expect", "text", "run", "named", "waonly")
+
+    def __init__(self, shape, args, expect, text, run=None, named=False, waonly=False):
+        self.shape, self.args, self.expect, self.text, self.run, self.named, self.waonly = shape, args, expect, text, run, named, waonly
+
+    def as_named(self):
+        return Decl(self.shape, self.args, self.expect, self.text, self.run, True, self.waonly)
 
     def model_op(self, qw):
-        return "%s %s %d %s" % (qw, self.shape, WORD, " ".join(str(a) for a in self.args))
+        # the Lean model has no separate rune kind: rune is int32
+        return "%s %s %d %s" % (qw, self.shape, WORD, " ".join("int32" if a == "rune" else str(a) for a in self.args))
 
     def render(self, i, lang, var=False):
-        t = self.text
-        for k in ("int8", "int16"):
-            t = t.replace("@" + k + "@", WA_NAME[k] if lang == "wa" else k)
-        for k in KINDS:
-            t = t.replace("@" + k + "@", k)
+        t = subst_kinds(self.text, lang, self.named)
         name = ("v%d" if var else "c%d") % i
         kw = "var" if var else "const"
         return t.replace("@DECL@", "%s %s" % (kw, name))
@@ -426,6 +501,16 @@ def gen_decls(ctx):
             for x in sorted(set([lo, hi, 0, hi + 1, lo - 1] + rng.sample(pool, min(len(pool), n)))):
                 exp = "ok:%d" % x if rep(k, x) and rep(k2, x) else "reject"
                 decls.append(Decl("dconv", (k, k2, x), exp, "@DECL@ = %s(%s(%s))" % (T(k2), T(k), lit_text(rng, x)), run=("conv", k, k2, x)))
+        # the Wa-only three-way comparison: const c = K(x) <=> K(y)  (an int constant -1/0/1; not Go: no go/types reference)
+        spairs = set([(lo, 1), (1, lo), (lo, hi), (hi, lo), (lo, lo), (hi, hi), (0, 0), (-1 if lo < 0 else 1, 1), (hi, hi - 1), (lo, lo + 1), (hi + 1, 0), (0, lo - 1),
+                      (lo, -1 if lo < 0 else 0), (hi, 0), (0, hi), (lo, 0)])
+        while len(spairs) < 16 + n * 4:
+            x = rng.choice(inr if rng.random() < 0.9 else pool)
+            spairs.add((x, rng.choice([x, x + 1, x - 1, rng.choice(inr)])))
+        for x, y in sorted(spairs):
+            exp = ("ok:%d" % ((x > y) - (x < y))) if rep(k, x) and rep(k, y) else "reject"
+            decls.append(Decl("dship", (k, x, y), exp, "@DECL@ = %s(%s) <=> %s(%s)" % (T(k), lit_text(rng, x), T(k), lit_text(rng, y)),
+                              run=("ship", k, x, y), waonly=True))
         # comparisons
         for c in CMPS:
             for _ in range(n * 2):
@@ -447,20 +532,26 @@ def gen_decls(ctx):
 
 
 def write_decl_files(ctx, decls, per_file=250):
+    """returns [(indices, paths)]; declarations are grouped by (named, waonly) so that one file has one rendering mode"""
     files = []
-    for fi in range(0, len(decls), per_file):
-        chunk = decls[fi:fi + per_file]
-        usevar = [(i % 7 == 3) for i in range(len(chunk))]
-        paths = {}
-        for lang in ("wa", "go"):
-            src = "package main\n\n" + "\n".join(d.render(i, lang, usevar[i]) for i, d in enumerate(chunk)) + "\n\nfunc main() {}\n"
-            d = os.path.join(ctx.tmp, "decl%d_%s" % (fi, lang))
-            os.makedirs(d, exist_ok=True)
-            p = os.path.join(d, "main.wa.go" if lang == "wa" else "main.go")
-            with open(p, "w") as f:
-                f.write(src)
-            paths[lang] = p
-        files.append((chunk, paths))
+    groups = {}
+    for i, d in enumerate(decls):
+        groups.setdefault((d.named, d.waonly), []).append(i)
+    for (named, waonly), idx in sorted(groups.items()):
+        for fi in range(0, len(idx), per_file):
+            chunk = idx[fi:fi + per_file]
+            usevar = [(j % 7 == 3) for j in range(len(chunk))]
+            paths = {}
+            for lang in (("wa",) if waonly else ("wa", "go")):
+                src = "package main\n\n" + (named_prelude(lang) + "\n" if named else "") + \
+                      "\n".join(decls[i].render(j, lang, usevar[j]) for j, i in enumerate(chunk)) + "\n\nfunc main() {}\n"
+                d = os.path.join(ctx.tmp, "decl_%d%d_%d_%s" % (named, waonly, fi, lang))
+                os.makedirs(d, exist_ok=True)
+                p = os.path.join(d, "main.wa.go" if lang == "wa" else "main.go")
+                with open(p, "w") as f:
+                    f.write(src)
+                paths[lang] = p
+            files.append((chunk, paths))
     return files
 
 
@@ -469,11 +560,13 @@ def fn_name(run):
     kind = run[0]
     if kind == "conv":
         return "cv_%s_%s" % (run[1], run[2])
+    if kind == "ship":
+        return "ship_%s" % run[1]
     return "%s_%s_%s" % (kind, run[2], run[1])
 
 
 def fn_src(run):
-    kind, k = run[0], run[1]
+    kind, k = run[0], T(run[1])
     if kind == "bin":
         return "func %s(x, y %s) %s { return x %s y }" % (fn_name(run), k, k, SYM[run[2]])
     if kind == "shift":
@@ -482,8 +575,10 @@ def fn_src(run):
         return "func %s(x %s) %s { return %sx }" % (fn_name(run), k, k, USYM[run[2]])
     if kind == "cmp":
         return "func %s(x, y %s) bool { return x %s y }" % (fn_name(run), k, SYM[run[2]])
+    if kind == "ship":
+        return "func %s(x, y %s) int { return x <=> y }" % (fn_name(run), k)
     if kind == "conv":
-        return "func %s(x %s) %s { return %s(x) }" % (fn_name(run), k, run[2], run[2])
+        return "func %s(x %s) %s { return %s(x) }" % (fn_name(run), k, T(run[2]), T(run[2]))
     raise ValueError(kind)
 
 
@@ -492,8 +587,8 @@ def plain(v):
 
 
 def run_exprs(run):
-    """(constant expression text, call text)"""
-    kind, k = run[0], run[1]
+    """(constant expression text, call text), type names as @k@ markers"""
+    kind, k = run[0], T(run[1])
     if kind == "bin":
         _, _, op, x, y = run
         return "%s(%s) %s %s(%s)" % (k, plain(x), SYM[op], k, plain(y)), "%s(%s, %s)" % (fn_name(run), plain(x), plain(y))
@@ -506,10 +601,22 @@ def run_exprs(run):
     if kind == "cmp":
         _, _, c, x, y = run
         return "%s(%s) %s %s(%s)" % (k, plain(x), SYM[c], k, plain(y)), "%s(%s, %s)" % (fn_name(run), plain(x), plain(y))
+    if kind == "ship":
+        _, _, x, y = run
+        return "%s(%s) <=> %s(%s)" % (k, plain(x), k, plain(y)), "%s(%s, %s)" % (fn_name(run), plain(x), plain(y))
     if kind == "conv":
         _, _, k2, x = run
-        return "%s(%s(%s))" % (k2, k, plain(x)), "%s(%s)" % (fn_name(run), plain(x))
+        return "%s(%s(%s))" % (T(k2), k, plain(x)), "%s(%s)" % (fn_name(run), plain(x))
     raise ValueError(kind)
+
+
+def run_kinds(run):
+    return [run[1]] + ([run[2]] if run[0] == "conv" else [])
+
+
+def run_rkind(run):
+    """kind of the expression's value: bool for comparisons, int for <=>, the target for conversions"""
+    return {"cmp": "bool", "ship": "int"}.get(run[0]) or (run[2] if run[0] == "conv" else run[1])
 
 
 def lean_run_op(run):
@@ -523,26 +630,48 @@ def lean_run_op(run):
         return "qw0 run %s %s %d" % (ts, run[2], run[3])
     if kind == "cmp":
         return "qw0 rcmp %s %s %d %d" % (ts, run[2], run[3], run[4])
+    if kind == "ship":
+        return "qw0 rship %s %d %d" % (ts, run[2], run[3])
     if kind == "conv":
         k2 = run[2]
         return "qw0 rconv %s %d %s %d" % (ts, kbits(k2), "s" if k2 in SIGNEDK else "u", run[3])
     raise ValueError(kind)
 
 
-def build_run_program(cases):
-    """cases: list of (run, expected string).  One output line per case: <folded> <run-time> <global>"""
-    fns, seen = [], set()
+def pr_helper(k, named):
+    """pr_k: takes the value AT ITS OWN (named) type — so a constant argument is materialised by the back end as a constant of
+    the named type — and returns a printable basic value (rune as int64: Wa prints a rune as a character)"""
+    ret = "int64" if k == "rune" else k
+    return "func pr_%s(x %s) %s { return %s(x) }" % (k, ("N_" + k) if named else k, ret, ret)
+
+
+def build_run_program(cases, named=False):
+    """cases: list of (run, expected string).  One output line per case: <folded> <run-time> <global>.
+    named=True: every operand/parameter/global has the named type N_k, and the three values are observed through pr_k."""
+    fns, seen, kinds, rk = [], set(), [], []
     for run, _ in cases:
         nm = fn_name(run)
         if nm not in seen:
             seen.add(nm)
             fns.append(fn_src(run))
+        for k in run_kinds(run):
+            if k not in kinds:
+                kinds.append(k)
+        r = run_rkind(run)
+        if r in KINDS and r not in rk and (named or r == "rune") and run[0] not in ("cmp", "ship"):
+            rk.append(r)
+
+    def obs(run, e):
+        r = run_rkind(run)
+        return "pr_%s(%s)" % (r, e) if r in rk and run[0] not in ("cmp", "ship") else e
     glob, body = [], []
     for i, (run, _) in enumerate(cases):
         ce, call = run_exprs(run)
         glob.append("var g%d = %s" % (i, ce))
-        body.append("\tprintln(%s, %s, g%d)" % (ce, call, i))
-    return "package main\n\n" + "\n".join(fns) + "\n\n" + "\n".join(glob) + "\n\nfunc main() {\n" + "\n".join(body) + "\n}\n"
+        body.append("\tprintln(%s, %s, %s)" % (obs(run, ce), obs(run, call), obs(run, "g%d" % i)))
+    src = "package main\n\n" + (named_prelude("wa", kinds) + "\n" if named else "") + "\n".join(pr_helper(k, named) for k in rk) + "\n" + \
+          "\n".join(fns) + "\n\n" + "\n".join(glob) + "\n\nfunc main() {\n" + "\n".join(body) + "\n}\n"
+    return subst_kinds(src, "go", named)
 
 
 def run_wa(ctx, warun, src, tag):
@@ -670,10 +799,10 @@ def flit(v):
 
 class FDecl:
     """a generated float constant declaration: text (same for Wa and Go), oracle verdict, run-time twin"""
-    __slots__ = ("shape", "kind", "text", "expect", "fn", "call", "rkind", "key")
+    __slots__ = ("shape", "kind", "text", "expect", "fn", "call", "rkind", "key", "waonly")
 
-    def __init__(self, shape, kind, text, expect, fn=None, call=None, rkind=None):
-        self.shape, self.kind, self.text, self.expect, self.fn, self.call, self.rkind = shape, kind, text, expect, fn, call, rkind
+    def __init__(self, shape, kind, text, expect, fn=None, call=None, rkind=None, waonly=False):
+        self.shape, self.kind, self.text, self.expect, self.fn, self.call, self.rkind, self.waonly = shape, kind, text, expect, fn, call, rkind, waonly
         self.key = "%s:%s" % (shape, kind)
 
 
@@ -735,6 +864,17 @@ def gen_float_decls(ctx):
                 acc = fround(acc, kind)
             if rng.random() < 0.5:
                 out.append(FDecl("fchainu%d" % len(ops), kind, "@DECL@ %s = %s" % (kind, e), ("ok", acc) if ok and acc is not None else "reject"))
+        # the Wa-only three-way comparison of typed float constants (operands rounded to the type first)
+        spairs = [("0.1", "0.1"), ("16777216", "16777217"), ("16777217", "16777216"), ("0.1", "0.2"), ("-0.1", "0.1"), ("1e-50", "0"), ("1e-45", "1.4e-45"),
+                  ("9007199254740993", "9007199254740992"), ("3.4028235e38", "3.4028234e38"), ("1e39", "1"), ("1", "-1")]
+        for _ in range(10 if quick else 200):
+            a_ = sgn(rng.choice(lits))
+            spairs.append((a_, rng.choice([a_, sgn(rng.choice(lits))])))
+        for a_, b_ in spairs:
+            x, y = fround(Fraction(a_), kind), fround(Fraction(b_), kind)
+            okc = x is not None and y is not None
+            out.append(FDecl("fship", kind, "@DECL@ = %s(%s) <=> %s(%s)" % (kind, a_, kind, b_), ("ok", Fraction((x > y) - (x < y))) if okc else "reject",
+                             fn="func fs_%s(x, y %s) int { return x <=> y }" % (kind, kind), call="fs_%s(%s, %s)" % (kind, a_, b_), rkind="int", waonly=True))
         # conversions K2(K1(v)) of values that are not exact in the narrower type
         other = "float64" if kind == "float32" else "float32"
         for v in lits + ["-" + l for l in lits[:: 3]]:
@@ -774,7 +914,28 @@ def fparse_verdict(v):
         return ("ok?", t)
 
 
-def fbits_expr(e, rkind):
+FNK = ["float32", "float64", "int32", "int64", "uint8", "uint32", "uint64"]
+FNK_RE = None
+
+
+def fnamed(t):
+    """the named-type rendering of a float-stage text: every basic kind k becomes N_k"""
+    global FNK_RE
+    import re
+    if FNK_RE is None:
+        FNK_RE = re.compile(r"\b(%s)\b" % "|".join(FNK))
+    return FNK_RE.sub(lambda m: "N_" + m.group(1), t)
+
+
+def fprelude(named):
+    if not named:
+        return ""
+    return "\n".join("type N_%s %s" % (k, k) for k in FNK) + "\n" + "\n".join("func pr_%s(x N_%s) %s { return %s(x) }" % (k, k, k, k) for k in FNK) + "\n"
+
+
+def fbits_expr(e, rkind, named=False):
+    if named and rkind in FNK:
+        e = "pr_%s(%s)" % (rkind, e)         # the constant is passed (and materialised) at its named type
     if rkind == "float32":
         return "math.Float32bits(%s)" % e
     if rkind == "float64":
@@ -788,18 +949,293 @@ def fexpect_print(val, rkind):
     return str(int(val))
 
 
-def build_float_program(cases):
+def build_float_program(cases, named=False):
+    tx = fnamed if named else (lambda t: t)
     fns, seen = [], set()
     for d in cases:
         if d.fn not in seen:
             seen.add(d.fn)
-            fns.append(d.fn)
+            fns.append(tx(d.fn))
     glob, body = [], []
     for i, d in enumerate(cases):
-        ce = d.text.replace("@DECL@ = ", "")
+        ce = tx(d.text.replace("@DECL@ = ", ""))
         glob.append("var g%d = %s" % (i, ce))
-        body.append("\tprintln(%s, %s, %s)" % (fbits_expr(ce, d.rkind), fbits_expr(d.call, d.rkind), fbits_expr("g%d" % i, d.rkind)))
-    return "package main\n\nimport \"math\"\n\nvar _ = math.Pi\n\n" + "\n".join(fns) + "\n\n" + "\n".join(glob) + "\n\nfunc main() {\n" + "\n".join(body) + "\n}\n"
+        body.append("\tprintln(%s, %s, %s)" % (fbits_expr(ce, d.rkind, named), fbits_expr(tx(d.call), d.rkind, named), fbits_expr("g%d" % i, d.rkind, named)))
+    return "package main\n\nimport \"math\"\n\nvar _ = math.Pi\n\n" + fprelude(named) + "\n".join(fns) + "\n\n" + "\n".join(glob) + "\n\nfunc main() {\n" + "\n".join(body) + "\n}\n"
+
+
+def float_decl_file(dl, named):
+    tx = fnamed if named else (lambda t: t)
+    return "package main\n\n" + fprelude(named) + "\n".join(tx(d.text).replace("@DECL@", "const c%d" % i) for i, d in enumerate(dl)) + "\n\nfunc main() {}\n"
+
+
+
+# ------------------------------------------------------------------ stage F: constants of every basic kind (also string / bool / rune), basic and NAMED
+#                                                                       types, placed as call argument, global, struct field, array element, map key
+PK_BOTH = ["uint8", "uint16", "int32", "uint32", "int64", "uint64", "rune", "float32", "float64", "string", "bool"]
+PK_WA = ["int", "uint"]
+PSTRS = ["a", "ab", "abc", "abd", "Wa", "hello", "z", "0", "abcabc", "B", "aB", "zz9"]
+PCOLS = ["call-argument", "run-time", "global", "global-struct-field", "struct-field", "array-element", "map-key"]
+
+
+def pobs(k, e):
+    """printable observation of an expression of kind k (at its own type): floats as bit patterns"""
+    e = "pr_%s(%s)" % (k, e)
+    if k == "float32":
+        return "math.Float32bits(%s)" % e
+    if k == "float64":
+        return "math.Float64bits(%s)" % e
+    return e
+
+
+def pexpect(k, v):
+    if k in FFMT:
+        return str(fbits(v, k))
+    if k == "bool":
+        return "true" if v else "false"
+    return str(v)
+
+
+class PCase:
+    """value case (result of kind k, observed in every placement) or predicate case (bool / int result: folded, run time, global)"""
+    __slots__ = ("k", "ce", "fn", "call", "val", "pred", "waonly", "tag")
+
+    def __init__(self, k, ce, fn, call, val, pred=None, waonly=False, tag=""):
+        self.k, self.ce, self.fn, self.call, self.val, self.pred, self.waonly, self.tag = k, ce, fn, call, val, pred, waonly, tag
+
+
+def plit(k, v):
+    if k == "string":
+        return '"%s"' % v
+    if k == "bool":
+        return "true" if v else "false"
+    return str(v)
+
+
+def gen_place_cases(ctx):
+    rng = ctx.rng
+    quick = ctx.tier == "quick"
+    nv, npd = (5, 6) if quick else (40, 40)
+    out = []
+    for k in PK_BOTH + PK_WA:
+        K = T(k)
+        wa = k in PK_WA
+        vals = []
+        if k in FFMT:
+            lits = ["1", "3", "0.1", "0.2", "0.3", "16777217", "16777216", "9007199254740993", "1e10", "1e-10", "0.7", "2.5", "7", "-0.1", "123456789.125", "1e20"]
+            tries = 0
+            while len(vals) < nv and tries < 200:
+                tries += 1
+                op, a, b = rng.choice(list(FOPS)), rng.choice(lits), rng.choice(lits)
+                if len(vals) == 0:
+                    op, a, b = "quo", "1", "3"
+                if len(vals) == 1:
+                    op, a, b = "add", "16777216", "1"
+                x, y = fround(Fraction(a), k), fround(Fraction(b), k)
+                r = fexact_op(op, x, y)
+                r = None if r is None else fround(r, k)
+                if r is None or r == 0 or not (Fraction(1, 10 ** 25) < abs(r) < 10 ** 25) or r in [v[3] for v in vals]:
+                    continue
+                vals.append(("%s(%s) %s %s(%s)" % (K, a, FOPS[op], K, b), "func pf_%s_%s(x, y %s) %s { return x %s y }" % (k, op, K, K, FOPS[op]), "pf_%s_%s(%s, %s)" % (k, op, a, b), r))
+        elif k == "string":
+            seen = set()
+            while len(vals) < nv:
+                a, b = rng.choice(PSTRS), rng.choice(PSTRS)
+                if a + b in seen:
+                    continue
+                seen.add(a + b)
+                vals.append(('%s("%s") + %s("%s")' % (K, a, K, b), "func pf_string_add(x, y %s) %s { return x + y }" % (K, K), 'pf_string_add("%s", "%s")' % (a, b), a + b))
+        elif k == "bool":
+            for op, sym, f in (("land", "&&", lambda a, b: a and b), ("lor", "||", lambda a, b: a or b)):
+                for a in (True, False):
+                    for b in (True, False):
+                        vals.append(("%s(%s) %s %s(%s)" % (K, plit(k, a), sym, K, plit(k, b)), "func pf_bool_%s(x, y %s) %s { return x %s y }" % (op, K, K, sym),
+                                     "pf_bool_%s(%s, %s)" % (op, plit(k, a), plit(k, b)), f(a, b)))
+            vals.append(("!%s(true)" % K, "func pf_bool_not(x %s) %s { return !x }" % (K, K), "pf_bool_not(true)", False))
+            rng.shuffle(vals)
+            vals = vals[:max(nv, 4)]
+        else:
+            lo, hi = krange(k)
+            pool = [v for v in kind_pool(rng, k, 8) if lo <= v <= hi]
+            tries = 0
+            while len(vals) < nv and tries < 400:
+                tries += 1
+                op = rng.choice(["add", "sub", "mul", "and", "or", "xor", "quo", "rem", "neg", "not"])
+                x, y = rng.choice(pool), rng.choice(pool)
+                if op in ("neg", "not"):
+                    r = exact_un("sub" if op == "neg" else "xor", x, 0 if k in SIGNEDK else kbits(k))
+                    sy = "-" if op == "neg" else "^"
+                    ce, fn, call = "%s%s(%d)" % (sy, K, x), "func pf_%s_%s(x %s) %s { return %sx }" % (k, op, K, K, sy), "pf_%s_%s(%d)" % (k, op, x)
+                else:
+                    r = exact_bin(op, x, y)
+                    ce, fn, call = "%s(%d) %s %s(%d)" % (K, x, SYM[op], K, y), "func pf_%s_%s(x, y %s) %s { return x %s y }" % (k, op, K, K, SYM[op]), "pf_%s_%s(%d, %d)" % (k, op, x, y)
+                if r is None or not rep(k, r) or r in [v[3] for v in vals]:
+                    continue
+                if op == "quo" and x == lo and y == -1:
+                    continue
+                vals.append((ce, fn, call, r))
+        for ce, fn, call, r in vals:
+            out.append(PCase(k, ce, fn, call, r, waonly=wa, tag="value"))
+        # predicates: comparisons (bool), the Wa-only <=> (int), len of a constant string (int)
+        if k == "bool":
+            cands = [(c, a, b) for c in ("eq", "ne") for a in (True, False) for b in (True, False)]
+        elif k == "string":
+            cands = [(c, a, b) for c in CMPS + ["ship"] for a, b in [("ab", "ab"), ("ab", "abc"), ("abd", "abc"), ("B", "aB"), ("z", "abcabc")]]
+        elif k in FFMT:
+            cands = [(c, a, b) for c in CMPS + ["ship"] for a, b in [("0.1", "0.1"), ("16777217", "16777216"), ("-0.1", "0.1"), ("0.3", "0.2"), ("9007199254740993", "9007199254740992")]]
+        else:
+            lo, hi = krange(k)
+            cands = [(c, a, b) for c in CMPS + ["ship"] for a, b in [(lo, 1), (1, lo), (hi, lo), (lo, hi), (hi, hi), (0, 1), (hi, hi - 1)]]
+        rng.shuffle(cands)
+        ships = [c for c in cands if c[0] == "ship"][:3]
+        for c, a, b in [c for c in cands if c[0] != "ship"][:npd] + ships:
+            if k in FFMT:
+                x, y = fround(Fraction(a), k), fround(Fraction(b), k)
+            else:
+                x, y = a, b
+            if c == "ship":
+                out.append(PCase(k, "%s(%s) <=> %s(%s)" % (K, plit(k, a), K, plit(k, b)), "func pp_%s_ship(x, y %s) int { return x <=> y }" % (k, K),
+                                 "pp_%s_ship(%s, %s)" % (k, plit(k, a), plit(k, b)), (x > y) - (x < y), pred="int", waonly=True, tag="ship"))
+            else:
+                out.append(PCase(k, "%s(%s) %s %s(%s)" % (K, plit(k, a), SYM[c], K, plit(k, b)), "func pp_%s_%s(x, y %s) bool { return x %s y }" % (k, c, K, SYM[c]),
+                                 "pp_%s_%s(%s, %s)" % (k, c, plit(k, a), plit(k, b)), exact_cmp(c, x, y), pred="bool", waonly=wa, tag="cmp"))
+        if k == "string":
+            for a, b in [("ab", "cde"), ("hello", "Wa")]:
+                out.append(PCase(k, 'len(%s("%s") + %s("%s"))' % (K, a, K, b), "func pp_string_len(x, y %s) int { return len(x + y) }" % K,
+                                 'pp_string_len("%s", "%s")' % (a, b), len(a + b), pred="int", waonly=False, tag="len"))
+    return out
+
+
+def build_place_program(cases, named):
+    """returns (source, expected output lines)"""
+    kinds = []
+    for c in cases:
+        if c.k not in kinds:
+            kinds.append(c.k)
+    pre = []
+    for k in kinds:
+        if named:
+            pre.append("type N_%s %s" % (k, k))
+        pre.append("type S_%s struct {\n\ta @%s@\n\tb @%s@\n}" % (k, k, k))
+        ret = "int64" if k == "rune" else k
+        pre.append("func pr_%s(x @%s@) %s { return %s(x) }" % (k, k, ret, ret))
+    fns, seen = [], set()
+    for c in cases:
+        if c.fn not in seen:
+            seen.add(c.fn)
+            fns.append(c.fn)
+    glob, body, expect = [], [], []
+    for i, c in enumerate(cases):
+        K = "@%s@" % c.k
+        if c.pred is None:
+            glob.append("var g%d %s = %s" % (i, K, c.ce))
+            glob.append("var gs%d = S_%s{%s, %s}" % (i, c.k, c.ce, c.ce))
+            body.append("\ts%d := S_%s{%s, %s}" % (i, c.k, c.ce, c.ce))
+            body.append("\ta%d := [2]%s{%s, %s}" % (i, K, c.ce, c.ce))
+            body.append("\tm%d := map[%s]int32{%s: 7}" % (i, K, c.ce))
+            body.append("\tprintln(%s, %s, %s, %s, %s, %s, m%d[%s])" % (pobs(c.k, c.ce), pobs(c.k, c.call), pobs(c.k, "g%d" % i), pobs(c.k, "gs%d.b" % i),
+                                                                        pobs(c.k, "s%d.a" % i), pobs(c.k, "a%d[1]" % i), i, c.call))
+            e = pexpect(c.k, c.val)
+            expect.append(" ".join([e] * 6 + ["7"]))
+        else:
+            glob.append("var g%d = %s" % (i, c.ce))
+            body.append("\tprintln(%s, %s, g%d)" % (c.ce, c.call, i))
+            e = pexpect(c.pred, c.val)
+            expect.append(" ".join([e] * 3))
+    src = "package main\n\nimport \"math\"\n\nvar _ = math.Pi\n\n" + "\n".join(pre) + "\n" + "\n".join(fns) + "\n\n" + "\n".join(glob) + "\n\nfunc main() {\n" + "\n".join(body) + "\n}\n"
+    return subst_kinds(src, "go", named, kinds), expect
+
+
+# ------------------------------------------------------------------ the surface of the code under verification, re-extracted on every run
+def extract_surface(repo):
+    """what internal/constant exports and folds, which operator tokens the checker folds, which builtins yield constants,
+    which basic kinds the back end materialises — read from the CURRENT source"""
+    import re
+    def rd(rel):                      # source without comments (commented-out cases are not part of the surface)
+        t = open(os.path.join(repo, rel)).read()
+        t = re.sub(r"/\*.*?\*/", "", t, flags=re.S)
+        return re.sub(r"(?m)^\s*//.*$", "", t)
+    val = rd("internal/constant/value.go")
+    expr = rd("internal/types/expr.go")
+    blt = rd("internal/types/builtins.go")
+    cf_ = rd("internal/backends/compiler_wat/compile_func.go")
+    surf = {}
+    surf["constant-func"] = sorted(set(re.findall(r"^func ([A-Z]\w*)\(", val, re.M)))
+    surf["constant-token"] = sorted(set(re.findall(r"\btoken\.([A-Z_]+)\b", val)))
+    toks = set()
+    for name in ("unaryOpPredicates", "binaryOpPredicates"):
+        m = re.search(r"%s\s*=\s*opPredicates\{(.*?)\n\}" % name, expr, re.S)
+        if m:
+            toks.update(re.findall(r"token\.([A-Z_]+)", m.group(1)))
+    for name in ("isShift", "isComparison"):
+        m = re.search(r"func %s\(op token\.Token\) bool \{(.*?)\n\}" % name, expr, re.S)
+        if m:
+            toks.update(re.findall(r"token\.([A-Z_]+)", m.group(1)))
+    surf["checker-token"] = sorted(toks)
+    bl = set()
+    parts = re.split(r"\n\tcase ((?:_\w+)(?:, _\w+)*):", blt)
+    for i in range(1, len(parts) - 1, 2):
+        if re.search(r"mode = constant_|x\.val = constant\.", parts[i + 1]):
+            bl.update(x.strip() for x in parts[i].split(","))
+    surf["constant-builtin"] = sorted(bl)
+    m = re.search(r"func \(g \*functionGenerator\) getValue\(.*?\n\}\n", cf_, re.S)
+    surf["getvalue-kind"] = sorted(set(re.findall(r"\btypes\.((?:Untyped)?(?:Bool|Uintptr|Uint\d*|Int\d*|Float\d*|Complex\d*|String|Rune))\b", m.group(0) if m else "")))
+    return surf
+
+
+# every item of the surface must be claimed by a generator stream below (or be explicitly out of this property's scope);
+# an item that appears in the source and is not listed here breaks the tie (the check then reports no-failing-input-found)
+SURFACE_COVERAGE = {
+    "constant-func": {
+        "BinaryOp": "A bin/sbin/bbin/fbin, B, E, F", "UnaryOp": "A un/bnot, B dunt/dunu, F", "Shift": "A shift, B dsht/dshu", "Compare": "A cmp/scmp/fcmp/bbin, B dcmp, F",
+        "CompareSpaceShip": "A ship/fship/sship, B dship, C ship, E fship, F ship", "ToInt": "A ratint, B drat, D fconv, E fconv", "ToFloat": "D fconv, E",
+        "Int64Val": "A i64val", "Uint64Val": "A u64val", "Float32Val": "D, E (roundFloat32)", "Float64Val": "D, E", "BitLen": "A bitlen", "Sign": "A sign",
+        "MakeFromLiteral": "A lit, D", "MakeInt64": "A (operand construction), B dship", "MakeFloat64": "E (roundFloat32/64)", "MakeString": "A sbin/scmp, F",
+        "MakeBool": "A bbin, F", "BoolVal": "F (bool constants through getValue)", "StringVal": "A slen/sbin, F", "MakeUnknown": "out of scope: no value",
+        "ToComplex": "complex: explored only (D)", "MakeImag": "complex: explored only (D)", "Real": "complex: explored only (D)", "Imag": "complex: explored only (D)",
+        # API not reached from the compiler (verified on every run: no use outside the package)
+        "Val": "unused", "Make": "unused", "Bytes": "unused", "MakeFromBytes": "unused", "Num": "unused", "Denom": "unused", "MakeUint64": "unused"},
+    "constant-token": {t: "A/B" for t in ["ADD", "SUB", "MUL", "QUO", "QUO_ASSIGN", "REM", "AND", "OR", "XOR", "AND_NOT", "SHL", "SHR", "EQL", "NEQ", "LSS", "LEQ", "GTR", "GEQ",
+                                          "LAND", "LOR", "NOT", "INT", "FLOAT", "IMAG", "CHAR", "STRING", "Token"]},
+    "checker-token": {t: "B/E/F" for t in ["ADD", "SUB", "MUL", "QUO", "REM", "AND", "OR", "XOR", "AND_NOT", "SHL", "SHR", "EQL", "NEQ", "LSS", "LEQ", "GTR", "GEQ",
+                                           "LAND", "LOR", "NOT", "SPACESHIP"]},
+    "constant-builtin": {"_Len": "F len(constant string)", "_Cap": "arrays: type-level constant, out of scope", "_Complex": "complex: explored only", "_Real": "complex: explored only",
+                         "_Imag": "complex: explored only", "_unsafe_Alignof": "layout constant, out of scope (C-layout properties)",
+                         "_unsafe_Offsetof": "layout constant, out of scope", "_unsafe_Sizeof": "layout constant, out of scope"},
+    "getvalue-kind": {k: "C/E/F" for k in ["Bool", "UntypedBool", "Uint8", "Uint16", "Uint32", "Uintptr", "Uint", "Int32", "Int", "UntypedInt", "Int64", "Uint64",
+                                           "Float32", "Float64", "UntypedFloat", "String", "UntypedString"]},
+}
+SURFACE_COVERAGE["getvalue-kind"].update({"Complex64": "complex: explored only", "Complex128": "complex: explored only"})
+
+
+def check_surface(ctx, dist):
+    import re
+    surf = extract_surface(vlib.REPO)
+    for cat, items in surf.items():
+        dist["surface:" + cat] = len(items)
+        if not items:
+            ctx.proof["broken"].append({"theorem": "coverage tie C15 (%s)" % cat, "why": "could not extract the %s list from the source (layout changed): the generator's coverage claim is unchecked" % cat})
+        for it in items:
+            if it not in SURFACE_COVERAGE[cat]:
+                ctx.proof["broken"].append({"theorem": "coverage tie C15 (%s)" % cat,
+                                            "why": "%s `%s` exists in the source but no generator stream of checks/c15.py claims it" % (cat, it)})
+    # functions claimed to be unreachable from the compiler must really be unused outside internal/constant
+    unused = [f for f, why in SURFACE_COVERAGE["constant-func"].items() if why == "unused"]
+    pat = re.compile(r"\bconstant\.(%s)\(" % "|".join(unused))
+    for root, dirs, files in os.walk(vlib.REPO):
+        dirs[:] = [d for d in dirs if d not in (".git", "3rdparty", "zz_verif")]
+        if root.endswith(os.path.join("internal", "constant")):
+            continue
+        for fn in files:
+            if fn.endswith(".go") and not fn.endswith("_test.go"):
+                try:
+                    txt = open(os.path.join(root, fn), errors="replace").read()
+                except OSError:
+                    continue
+                for mm in pat.finditer(txt):
+                    ctx.proof["broken"].append({"theorem": "coverage tie C15 (constant-func)",
+                                                "why": "constant.%s is now used by %s but has no generator coverage" % (mm.group(1), os.path.relpath(os.path.join(root, fn), vlib.REPO))})
+    return surf
 
 
 # ------------------------------------------------------------------ the check
@@ -883,15 +1319,17 @@ def run(ctx):
                       "constant.BinaryOp(MinInt64, QUO_ASSIGN, -1) = %s; exact value (math/big) is %s" % (probe[0], probe[1]),
                       {"op": "w bin quo -9223372036854775808 -1", "impl": probe[0], "math/big": probe[1], "go/constant": probe[2]})
 
+    # ---- tie: the functions / operator tokens / builtins / kinds present in the CURRENT source must all be claimed by a generator stream
+    check_surface(ctx, dist)
     # ---- stage A: constant package vs exact arithmetic vs go/constant vs math/big vs Lean
     cops = corpus_ops() + gen_const_ops(ctx)
     wl = ["w " + opline(o) for o in cops]
     wout = hrun(wl)
     refl, refidx = [], []
     for i, o in enumerate(cops):
-        if o[0] in ("bin", "un", "shift", "cmp", "ratint", "bitlen", "sign", "lit"):
+        if o[0] in ("bin", "un", "shift", "cmp", "ratint", "bitlen", "sign", "lit", "ship", "fship"):
             refl.append("b " + opline(o)); refidx.append((i, "math/big"))
-        if o[0] != "repr":
+        if o[0] not in ("repr", "ship", "fship", "sship", "slen"):        # `<=>` does not exist in go/constant
             refl.append("g " + opline(o)); refidx.append((i, "go/constant"))
     rout = hrun(refl)
     ref_disagree = {}
@@ -916,31 +1354,43 @@ def run(ctx):
             ctx.violation(key, "constant package: %s -> %s, exact arithmetic gives %s" % (opline(o), r, exp),
                           {"op": "w " + opline(o), "impl": r, "exact": exp})
     samples += [{"op": "w " + opline(o), "impl": r} for o, r in list(zip(cops, wout))[:: max(1, len(cops) // 6)]][:6]
-    mo = mrun([qw + " " + opline(o) for o in cops])
+    midx = [i for i, o in enumerate(cops) if o[0] in MODEL_OPS]          # string / bool / float ops have no Lean model
+    mo = mrun([qw + " " + opline(cops[i]) for i in midx])
     if mo is not None:
-        for i, op, a, b in ctx.diff_lines(wl, wout, mo)[:20]:
+        for i, op, a, b in ctx.diff_lines([wl[i] for i in midx], [wout[i] for i in midx], mo)[:20]:
             ctx.proof["broken"].append({"theorem": "correspondence C15 model vs internal/constant", "why": "op %r impl=%r model=%r" % (op, a, b)})
 
     lap("stageA")
     # ---- stage B: the checker's verdict on generated declarations
     decls = gen_decls(ctx)
+    # the same declarations over NAMED types (`type N_k k`): verdicts and values must not depend on the type being named
+    nnamed = 1500 if ctx.tier == "quick" else 12000
+    decls += [decls[i].as_named() for i in ctx.rng.sample(range(len(decls)), min(nnamed, len(decls)))]
     files = write_decl_files(ctx, decls)
     lines = []
     for chunk, paths in files:
         lines.append("w chk %s %d" % (paths["wa"], WORD))
-        lines.append("g chk %s %d" % (paths["go"], WORD))
+        if "go" in paths:
+            lines.append("g chk %s %d" % (paths["go"], WORD))
     out = hrun(lines)
-    wa_verdicts, go_verdicts = [], []
-    for fi, (chunk, paths) in enumerate(files):
-        wv, gv = out[2 * fi].split(), out[2 * fi + 1].split()
-        if len(wv) != len(chunk) or out[2 * fi].startswith("parse-error"):
-            ctx.violation("checker:generated-file-not-processed", "type-checking the generated declaration file did not yield one verdict per declaration: %s" % out[2 * fi][:300],
-                          {"file": open(paths["wa"]).read(), "impl": out[2 * fi][:2000]})
+    wa_verdicts, go_verdicts = [None] * len(decls), [None] * len(decls)
+    li = 0
+    for chunk, paths in files:
+        wo = out[li]; li += 1
+        wv = wo.split()
+        if len(wv) != len(chunk) or wo.startswith("parse-error"):
+            ctx.violation("checker:generated-file-not-processed", "type-checking the generated declaration file did not yield one verdict per declaration: %s" % wo[:300],
+                          {"file": open(paths["wa"]).read(), "impl": wo[:2000]})
             wv = ["missing"] * len(chunk)
-        if len(gv) != len(chunk):
-            raise vlib.InfraError("go/types reference failed on generated file: %s" % out[2 * fi + 1][:500])
-        wa_verdicts += wv
-        go_verdicts += gv
+        if "go" in paths:
+            go_ = out[li]; li += 1
+            gv = go_.split()
+            if len(gv) != len(chunk):
+                raise vlib.InfraError("go/types reference failed on generated file: %s" % go_[:500])
+        else:
+            gv = [None] * len(chunk)          # Wa-only operator: no Go reference
+        for j, i in enumerate(chunk):
+            wa_verdicts[i], go_verdicts[i] = wv[j], gv[j]
     dmodel = mrun([d.model_op(qw) for d in decls])
     dist["stageB_decls"] = len(decls)
     go_diff = 0
@@ -949,10 +1399,12 @@ def run(ctx):
         evaluations += 1
         wv, gv = wa_verdicts[i], go_verdicts[i]
         dist["B:" + d.shape] = dist.get("B:" + d.shape, 0) + 1
+        if d.named:
+            dist["B:named"] = dist.get("B:named", 0) + 1
         acc = wv.startswith("ok:")
         dist["B:accepted" if acc else "B:rejected:" + wv] = dist.get("B:accepted" if acc else "B:rejected:" + wv, 0) + 1
         ints = [a for a in d.args if isinstance(a, int)]
-        nontrivial.add((d.shape,) + tuple(a for a in d.args if isinstance(a, str)) + tuple(vclass(a) for a in ints[:2]) + (acc,))
+        nontrivial.add((d.shape, d.named) + tuple(a for a in d.args if isinstance(a, str)) + tuple(vclass(a) for a in ints[:2]) + (acc,))
         exp = d.expect
         if (exp == "reject") != (not acc) or (acc and wv != exp):
             minq = hits_minq(d)
@@ -964,14 +1416,16 @@ def run(ctx):
                 key = "checker:%s:rejects-representable" % d.shape
             else:
                 key = "checker:%s:wrong-folded-value" % d.shape
+            if d.named and not minq:
+                key = "named-type:" + key
             ctx.violation(key, "declaration `%s`: checker says %s, exact arithmetic / representability says %s" % (d.render(0, "wa"), wv, exp),
-                          {"decl": d.render(0, "wa"), "impl": wv, "exact": exp, "go/types": gv})
+                          {"decl": (named_prelude("wa") + "\n" if d.named else "") + d.render(0, "wa"), "impl": wv, "exact": exp, "go/types": gv})
         elif acc and d.run is not None:
             accepted_runs.append(d)
         if dmodel is not None and i < len(dmodel) and dmodel[i] != wv:
             ctx.proof["broken"].append({"theorem": "correspondence C15 checker model vs internal/types", "why": "decl %r impl=%r model=%r" % (d.render(0, "wa"), wv, dmodel[i])})
             ctx.corr["diffs"] += 1
-        if gv.startswith("ok:") != acc or (acc and gv != wv):
+        if gv is not None and (gv.startswith("ok:") != acc or (acc and gv != wv)):
             go_diff += 1
             if go_diff <= 3:
                 ctx.notes.append("go/types disagrees with Wa's checker on `%s`: go=%s wa=%s (exact: %s)" % (d.render(0, "go"), gv, wv, exp))
@@ -986,7 +1440,7 @@ def run(ctx):
     for j, i in enumerate(sample):
         p = os.path.join(ctx.tmp, "api%d.wa.go" % j)
         with open(p, "w") as f:
-            f.write("package main\n\n" + decls[i].render(0, "wa") + "\n\nfunc main() {}\n")
+            f.write("package main\n\n" + (named_prelude("wa") + "\n" if decls[i].named else "") + decls[i].render(0, "wa") + "\n\nfunc main() {}\n")
         alines.append("w apichk " + p)
     for i, r in zip(sample, hrun(alines)):
         evaluations += 1
@@ -996,9 +1450,9 @@ def run(ctx):
                           {"decl": decls[i].render(0, "wa"), "api": r, "types": wv})
     dist["B:api_LoadProgramFile"] = len(sample)
     # `go vet` itself on the Go text: all accepted declarations in one file must vet clean; a few rejected ones must be reported
-    accd = [d for i, d in enumerate(decls) if wa_verdicts[i].startswith("ok:") and go_verdicts[i].startswith("ok:")][:120]
+    accd = [d for i, d in enumerate(decls) if not d.named and not d.waonly and wa_verdicts[i].startswith("ok:") and go_verdicts[i].startswith("ok:")][:120]
     wordk = ("int", "uint", "uintptr")        # `go vet` checks with the host's 64-bit int: only explicit widths are comparable
-    rejd = [d for i, d in enumerate(decls) if not wa_verdicts[i].startswith("ok:") and not go_verdicts[i].startswith("ok:")
+    rejd = [d for i, d in enumerate(decls) if not d.named and not d.waonly and not wa_verdicts[i].startswith("ok:") and not go_verdicts[i].startswith("ok:")
             and not any(a in wordk for a in d.args if isinstance(a, str))][:8]
     rc, o = go_vet(ctx, "package main\n\n" + "\n".join(d.render(i, "go") for i, d in enumerate(accd)) + "\n\nfunc main() {}\n", "vet_acc")
     if rc != 0:
@@ -1026,22 +1480,24 @@ def run(ctx):
     # keep a balanced selection over (shape, kind)
     by = {}
     for d in cand:
-        by.setdefault((d.run[0], d.run[1]), []).append(d)
+        by.setdefault((d.run[0], d.run[1], d.named), []).append(d)
     sel = []
     while len(sel) < ncase and any(by.values()):
         for key in sorted(by):
             if by[key] and len(sel) < ncase:
                 sel.append(by[key].pop())
-    both = [d for d in sel if all(k in RUNK_BOTH for k in ([d.run[1]] + ([d.run[2]] if d.run[0] == "conv" else [])))]
-    waonly = [d for d in sel if d not in both]
     nch = 6 if ctx.tier == "quick" else 24
     progs = []
-    for grp, tag, withgo in ((both, "both", True), (waonly, "wa", False)):
-        k = max(1, min(nch, len(grp) // 20 or 1))
+    grp = {}
+    for d in sel:
+        withgo = d.run[0] != "ship" and all(k in RUNK_BOTH for k in run_kinds(d.run))      # `<=>` is not Go; int/uint are 32-bit in Wa only
+        grp.setdefault((d.named, withgo), []).append(d)
+    for (named, withgo), g_ in sorted(grp.items()):
+        k = max(1, min(nch, len(g_) // 40 or 1))
         for ci in range(k):
-            ch = grp[ci::k]
+            ch = g_[ci::k]
             if ch:
-                progs.append((ch, build_run_program([(d.run, d.expect) for d in ch]), "%s%d" % (tag, ci), withgo))
+                progs.append((ch, build_run_program([(d.run, d.expect) for d in ch], named), "%s%s%d" % ("n" if named else "b", "g" if withgo else "w", ci), withgo))
 
     def exec_prog(a):
         ch, src, tag, withgo = a
@@ -1064,26 +1520,30 @@ def run(ctx):
             evaluations += 1
             dist["stageC_cases"] += 1
             dist["C:" + d.run[0] + ":" + d.run[1]] = dist.get("C:" + d.run[0] + ":" + d.run[1], 0) + 1
+            if d.named:
+                dist["C:named"] = dist.get("C:named", 0) + 1
             exact = d.expect[3:]
             f = wlines[i].split()
-            ce, call = run_exprs(d.run)
+            ce, call = (subst_kinds(t, "go", d.named) for t in run_exprs(d.run))
+            nk = "named-type:" if d.named else ""
+            one = build_run_program([(d.run, d.expect)], d.named)
             if len(f) != 3:
                 ctx.violation("fold-vs-runtime:bad-output", "case `%s` printed %r" % (ce, wlines[i]), {"expr": ce, "wa": wlines[i]})
                 continue
             folded, rt, gl = f
             if folded != exact:
-                ctx.violation("fold:%s:%s:wrong-value" % (d.run[0], d.run[1]), "println(%s) prints %s under Wa; exact value %s" % (ce, folded, exact),
-                              {"expr": ce, "wa_folded": folded, "exact": exact, "program": "package main\nfunc main() { println(%s) }\n" % ce})
+                ctx.violation(nk + "fold:%s:%s:wrong-value" % (d.run[0], d.run[1]), "the constant `%s` is %s in the compiled program; exact value %s" % (ce, folded, exact),
+                              {"expr": ce, "wa_folded": folded, "exact": exact, "program": one, "expected": "%s %s %s" % (exact, exact, exact)})
             if rt != folded:
-                ctx.violation("fold-vs-runtime:%s:%s" % (d.run[0], d.run[1] if d.run[0] != "bin" else d.run[2] + ":" + d.run[1]),
+                ctx.violation(nk + "fold-vs-runtime:%s:%s" % (d.run[0], d.run[1] if d.run[0] != "bin" else d.run[2] + ":" + d.run[1]),
                               "`%s` folds to %s but %s computes %s at run time (exact %s)" % (ce, folded, call, rt, exact),
-                              {"expr": ce, "call": call, "fn": fn_src(d.run), "wa_folded": folded, "wa_runtime": rt, "exact": exact})
+                              {"expr": ce, "call": call, "wa_folded": folded, "wa_runtime": rt, "exact": exact, "program": one, "expected": "%s %s %s" % (exact, exact, exact)})
             if gl != exact:
                 dist["C:global_wrong"] += 1
-                kres = d.run[2] if d.run[0] == "conv" else ("bool" if d.run[0] == "cmp" else d.run[1])
-                ctx.violation(global_defect_key(kres, int(exact) if exact not in ("true", "false") else 0),
+                kres = run_rkind(d.run)
+                ctx.violation(nk + global_defect_key(kres, int(exact) if exact not in ("true", "false") else 0),
                               "package-level `var g = %s` holds %s at run time; the constant's value is %s" % (ce, gl, exact),
-                              {"program": "package main\n\nvar g = %s\n\nfunc main() { println(g) }\n" % ce, "wa": gl, "exact": exact})
+                              {"program": one, "wa": gl, "exact": exact, "expected": "%s %s %s" % (exact, exact, exact)})
             if g is not None:
                 gf = g[1][i].split()
                 if gf != [exact, exact, exact]:
@@ -1105,7 +1565,8 @@ def run(ctx):
             evaluations += 1
             if len(f) == 3 and f[0] != f[1]:
                 ctx.violation("fold-vs-runtime:shift-count-ge-width", "`%s` folds to %s but the compiled shift computes %s (count >= register width; C01 shift-count-ge-width)" % (
-                    run_exprs(r)[0], f[0], f[1]), {"expr": run_exprs(r)[0], "fn": fn_src(r), "wa_folded": f[0], "wa_runtime": f[1]})
+                    subst_kinds(run_exprs(r)[0], "go", False), f[0], f[1]), {"expr": subst_kinds(run_exprs(r)[0], "go", False), "wa_folded": f[0], "wa_runtime": f[1],
+                                                                               "program": build_run_program([(r, "")])})
     else:
         ctx.notes.append("shift probe program failed under Wa: %s %s" % (wst, werr[-200:]))
     # probe: global initialisers, the two root causes in wir aBasic.Bin, independent of the generated selection
@@ -1151,80 +1612,110 @@ def run(ctx):
     # ---- stage E: typed FLOAT constant expressions: checker value vs exact-rational oracle (rounded to the type after every
     #      typed step) vs go/types, and folded constant vs the same operators on parameters vs global vs `go run` (bit patterns)
     fdecls = gen_float_decls(ctx)
-    fsrc = "package main\n\n" + "\n".join(d.text.replace("@DECL@", "const c%d" % i) for i, d in enumerate(fdecls)) + "\n\nfunc main() {}\n"
-    fdir = os.path.join(ctx.tmp, "fdecl")
-    os.makedirs(fdir, exist_ok=True)
-    fpw, fpg = os.path.join(fdir, "main.wa.go"), os.path.join(fdir, "main.go")
-    for pth in (fpw, fpg):
-        with open(pth, "w") as f:
-            f.write(fsrc)
-    fo = hrun(["w chk %s %d" % (fpw, WORD), "g chk %s %d" % (fpg, WORD)])
-    fwv, fgv = fo[0].split(), fo[1].split()
-    if len(fwv) != len(fdecls) or fo[0].startswith("parse-error"):
-        ctx.violation("float:generated-file-not-processed", "type-checking the generated float declaration file did not yield one verdict per declaration: %s" % fo[0][:300],
-                      {"file": fsrc, "impl": fo[0][:2000]})
-        fwv = ["missing"] * len(fdecls)
-    if len(fgv) != len(fdecls):
-        raise vlib.InfraError("go/types reference failed on generated float file: %s" % fo[1][:500])
     dist["stageE_float_decls"] = len(fdecls)
     frun = []
     fgo_diff = 0
-    for i, d in enumerate(fdecls):
-        evaluations += 1
-        got, gog = fparse_verdict(fwv[i]), fparse_verdict(fgv[i])
-        dist["E:" + d.shape] = dist.get("E:" + d.shape, 0) + 1
-        dist["E:accepted" if got != "reject" else "E:rejected"] = dist.get("E:accepted" if got != "reject" else "E:rejected", 0) + 1
-        nontrivial.add(("float", d.key, d.text.split("=", 1)[1].strip()[:60]))
-        decl = d.text.replace("@DECL@", "const c0")
-        if got != d.expect:
-            if got == "reject":
-                key = "float:%s:rejects-representable" % d.key
-            elif d.expect == "reject":
-                key = "float:%s:accepts-unrepresentable" % d.key
-            else:
-                key = "float:%s:wrong-folded-value" % d.key
-            ctx.violation(key, "declaration `%s`: checker gives %s; exact rational arithmetic rounded to the type after every typed step gives %s (go/types: %s)" % (
-                decl, fwv[i], d.expect if d.expect == "reject" else "ok:%s" % d.expect[1], fgv[i]),
-                {"decl": decl, "impl": fwv[i], "exact": "reject" if d.expect == "reject" else "ok:%s" % d.expect[1], "go/types": fgv[i]})
-        elif got != "reject" and d.fn is not None:
-            # float -> unsigned conversions of values >= half the unsigned range trap in the compiled program
-            # (signed trunc instruction): probed separately below, a trap would take the whole program down
-            k1, _, k2 = d.kind.partition("_")
-            if d.shape == "fconv" and k1 in FFMT and k2 in ("uint32", "uint64") and d.expect[1] >= (1 << (kbits(k2) - 1)):
-                dist["E:float_to_unsigned_ge_half_range_excluded"] = dist.get("E:float_to_unsigned_ge_half_range_excluded", 0) + 1
-            else:
-                frun.append(d)
-        if gog != got:
-            fgo_diff += 1
-            if fgo_diff <= 3:
-                ctx.notes.append("go/types disagrees with Wa's checker on float declaration `%s`: go=%s wa=%s" % (decl, fgv[i], fwv[i]))
+    # every declaration is checked in its basic rendering and in its NAMED rendering (type N_k k); `<=>` ones without a Go reference
+    for named in (False, True):
+        for waonly in (False, True):
+            dl = [d for d in fdecls if d.waonly == waonly]
+            if not dl:
+                continue
+            fsrc = float_decl_file(dl, named)
+            fdir = os.path.join(ctx.tmp, "fdecl_%d%d" % (named, waonly))
+            os.makedirs(fdir, exist_ok=True)
+            fpw, fpg = os.path.join(fdir, "main.wa.go"), os.path.join(fdir, "main.go")
+            for pth in (fpw, fpg):
+                with open(pth, "w") as f:
+                    f.write(fsrc)
+            fo = hrun(["w chk %s %d" % (fpw, WORD)] + ([] if waonly else ["g chk %s %d" % (fpg, WORD)]))
+            fwv = fo[0].split()
+            fgv = [None] * len(dl) if waonly else fo[1].split()
+            if len(fwv) != len(dl) or fo[0].startswith("parse-error"):
+                ctx.violation("float:generated-file-not-processed", "type-checking the generated float declaration file did not yield one verdict per declaration: %s" % fo[0][:300],
+                              {"file": fsrc, "impl": fo[0][:2000]})
+                fwv = ["missing"] * len(dl)
+            if len(fgv) != len(dl):
+                raise vlib.InfraError("go/types reference failed on generated float file: %s" % fo[1][:500])
+            nk = "named-type:" if named else ""
+            for i, d in enumerate(dl):
+                evaluations += 1
+                got = fparse_verdict(fwv[i])
+                gog = fparse_verdict(fgv[i]) if fgv[i] is not None else got
+                dist["E:" + d.shape] = dist.get("E:" + d.shape, 0) + 1
+                dist["E:accepted" if got != "reject" else "E:rejected"] = dist.get("E:accepted" if got != "reject" else "E:rejected", 0) + 1
+                nontrivial.add(("float", named, d.key, d.text.split("=", 1)[1].strip()[:60]))
+                decl = (fnamed(d.text) if named else d.text).replace("@DECL@", "const c0")
+                if got != d.expect:
+                    if got == "reject":
+                        key = nk + "float:%s:rejects-representable" % d.key
+                    elif d.expect == "reject":
+                        key = nk + "float:%s:accepts-unrepresentable" % d.key
+                    else:
+                        key = nk + "float:%s:wrong-folded-value" % d.key
+                    ctx.violation(key, "declaration `%s`: checker gives %s; exact rational arithmetic rounded to the type after every typed step gives %s (go/types: %s)" % (
+                        decl, fwv[i], d.expect if d.expect == "reject" else "ok:%s" % d.expect[1], fgv[i]),
+                        {"decl": fprelude(named) + decl, "impl": fwv[i], "exact": "reject" if d.expect == "reject" else "ok:%s" % d.expect[1], "go/types": fgv[i]})
+                elif got != "reject" and d.fn is not None:
+                    # float -> unsigned conversions of values >= half the unsigned range trapped in the compiled program
+                    # (signed trunc instruction): probed separately below, a trap would take the whole program down
+                    k1, _, k2 = d.kind.partition("_")
+                    if d.shape == "fconv" and k1 in FFMT and k2 in ("uint32", "uint64") and d.expect[1] >= (1 << (kbits(k2) - 1)):
+                        dist["E:float_to_unsigned_ge_half_range_excluded"] = dist.get("E:float_to_unsigned_ge_half_range_excluded", 0) + 1
+                    else:
+                        frun.append((d, named))
+                if gog != got:
+                    fgo_diff += 1
+                    if fgo_diff <= 3:
+                        ctx.notes.append("go/types disagrees with Wa's checker on float declaration `%s`: go=%s wa=%s" % (decl, fgv[i], fwv[i]))
+            if not named and not waonly:
+                samples += [{"decl": d.text.replace("@DECL@", "const c0"), "impl": fwv[i], "go/types": fgv[i]} for i, d in list(enumerate(dl))[:: max(1, len(dl) // 4)]][:4]
     dist["E:go_types_disagreements"] = fgo_diff
-    samples += [{"decl": d.text.replace("@DECL@", "const c0"), "impl": fwv[i], "go/types": fgv[i]} for i, d in list(enumerate(fdecls))[:: max(1, len(fdecls) // 4)]][:4]
     ctx.rng.shuffle(frun)
-    frun = frun[: (360 if ctx.tier == "quick" else 3000)]
-    nfp = 3 if ctx.tier == "quick" else 12
-    fprogs = [(frun[i::nfp], build_float_program(frun[i::nfp]), "f%d" % i) for i in range(nfp) if frun[i::nfp]]
+    # extreme magnitudes get their own programs: if a constant is emitted as Inf the module does not assemble at all
+    def extreme(d):
+        return d.expect != "reject" and d.rkind in FFMT and d.expect[1] != 0 and not (Fraction(1, 10 ** 30) < abs(d.expect[1]) < 10 ** 30)
+    fgroups = {}
+    for d, named in frun:
+        fgroups.setdefault((named, d.waonly, extreme(d)), []).append(d)
+    fcap = 130 if ctx.tier == "quick" else 1000
+    fprogs = []
+    for (named, waonly, ext), g_ in sorted(fgroups.items()):
+        g_ = g_[:fcap]
+        nfp = max(1, len(g_) // 90)
+        for i in range(nfp):
+            ch = g_[i::nfp]
+            if ch:
+                fprogs.append((ch, build_float_program(ch, named), "f%d%d%d_%d" % (named, waonly, ext, i), named, not waonly))
 
     def exec_fprog(a):
-        ch, src, tag = a
-        return run_wa(ctx, warun, src, "frun_" + tag), run_go(ctx, src, "fgorun_" + tag)
-    with cf.ThreadPoolExecutor(6) as ex:
+        ch, src, tag, named, withgo = a
+        return run_wa(ctx, warun, src, "frun_" + tag), (run_go(ctx, src, "fgorun_" + tag) if withgo else None)
+    with cf.ThreadPoolExecutor(8) as ex:
         fres = list(ex.map(exec_fprog, fprogs))
     dist["stageE_fold_vs_runtime_cases"] = 0
-    for (ch, src, tag), ((wst, wlines, werr), (gst, glines)) in zip(fprogs, fres):
-        if gst != "ok" or len(glines) != len(ch):
-            raise vlib.InfraError("go run of float fold-vs-runtime program %s failed: %s" % (tag, "\n".join(glines)[-1500:]))
+    for (ch, src, tag, named, withgo), ((wst, wlines, werr), gres) in zip(fprogs, fres):
+        nk = "named-type:" if named else ""
+        tx = fnamed if named else (lambda t: t)
+        if gres is not None and (gres[0] != "ok" or len(gres[1]) != len(ch)):
+            raise vlib.InfraError("go run of float fold-vs-runtime program %s failed: %s" % (tag, "\n".join(gres[1])[-1500:]))
+        glines = gres[1] if gres is not None else [None] * len(ch)
         if wst != "ok" or len(wlines) != len(ch):
-            ctx.violation("float-fold-vs-runtime:wa-run-failed", "float fold-vs-runtime program fails under Wa (%s) %s" % (wst, werr[-300:]),
-                          {"program": src, "wa_status": wst, "wa_tail": wlines[-3:], "stderr": werr})
+            ctx.violation(nk + "float-fold-vs-runtime:wa-run-failed", "float fold-vs-runtime program (%s types) does not build/run under Wa (%s) %s%s" % (
+                "named" if named else "basic", wst, werr[-300:], "" if gres is None else "; `go run` of the same text succeeds"),
+                {"program": src, "wa_status": wst, "wa_tail": wlines[-3:], "stderr": werr})
             continue
         for d, wl_, gl_ in zip(ch, wlines, glines):
             evaluations += 1
             dist["stageE_fold_vs_runtime_cases"] += 1
-            ce = d.text.replace("@DECL@ = ", "")
+            if named:
+                dist["E:named_runtime_cases"] = dist.get("E:named_runtime_cases", 0) + 1
+            ce = tx(d.text.replace("@DECL@ = ", ""))
             want = fexpect_print(d.expect[1], d.rkind)
-            wf, gf = wl_.split(), gl_.split()
-            prog1 = "package main\n\nimport \"math\"\n\nvar _ = math.Pi\n\n%s\n\nfunc main() {\n\tprintln(%s, %s)\n}\n" % (d.fn, fbits_expr(ce, d.rkind), fbits_expr(d.call, d.rkind))
+            wf = wl_.split()
+            gf = gl_.split() if gl_ is not None else None
+            prog1 = build_float_program([d], named)
+            exp3 = "%s %s %s" % (want, want, want)
             if len(wf) != 3:
                 ctx.violation("float-fold-vs-runtime:bad-output", "case `%s` printed %r" % (ce, wl_), {"expr": ce, "wa": wl_})
                 continue
@@ -1232,18 +1723,18 @@ def run(ctx):
             negz = {"float32": str(1 << 31), "float64": str(1 << 63)}.get(d.rkind)
             norm = lambda t: "0" if (negz is not None and t == negz) else t
             if wf[0] != want:
-                ctx.violation("float-fold:%s:wrong-value" % d.key, "`%s` folds to bits %s under Wa; exact value rounded per step has bits %s (go run: %s)" % (ce, wf[0], want, gf[:1]),
-                              {"expr": ce, "wa_folded": wf[0], "exact": want, "go": gl_, "program": prog1, "expected": want + " " + want})
+                ctx.violation(nk + "float-fold:%s:wrong-value" % d.key, "the constant `%s` has bits %s in the compiled Wa program; exact value rounded per step has bits %s (go run: %s)" % (
+                    ce, wf[0], want, gf[:1] if gf else None), {"expr": ce, "wa_folded": wf[0], "exact": want, "go": gl_, "program": prog1, "expected": exp3})
             if norm(wf[1]) != norm(wf[0]):
-                ctx.violation("float-fold-vs-runtime:%s" % d.key, "`%s` folds to bits %s but %s computes bits %s at run time (exact: %s; go run: %s)" % (ce, wf[0], d.call, wf[1], want, gl_),
-                              {"expr": ce, "call": d.call, "fn": d.fn, "wa_folded": wf[0], "wa_runtime": wf[1], "exact": want, "go": gl_, "program": prog1, "expected": want + " " + want})
+                ctx.violation(nk + "float-fold-vs-runtime:%s" % d.key, "`%s` folds to bits %s but %s computes bits %s at run time (exact: %s; go run: %s)" % (ce, wf[0], d.call, wf[1], want, gl_),
+                              {"expr": ce, "call": d.call, "wa_folded": wf[0], "wa_runtime": wf[1], "exact": want, "go": gl_, "program": prog1, "expected": exp3})
             if wf[2] != wf[0]:
-                ctx.violation("float-global-init:%s" % d.key, "package-level `var g = %s` holds bits %s; the folded constant has bits %s" % (ce, wf[2], wf[0]),
-                              {"expr": ce, "wa_global": wf[2], "wa_folded": wf[0], "exact": want})
-            if wf != gf:
+                ctx.violation(nk + "float-global-init:%s" % d.key, "package-level `var g = %s` holds bits %s; the folded constant has bits %s" % (ce, wf[2], wf[0]),
+                              {"expr": ce, "wa_global": wf[2], "wa_folded": wf[0], "exact": want, "program": prog1, "expected": exp3})
+            if gf is not None and wf != gf:
                 if wf[1] != gf[1] and wf[0] == gf[0]:
                     ctx.violation("float-runtime-vs-go:%s" % d.key, "`%s`: Wa computes bits %s at run time, `go run` of the same text %s" % (d.call, wf[1], gf[1]),
-                                  {"call": d.call, "fn": d.fn, "wa": wl_, "go": gl_})
+                                  {"call": d.call, "wa": wl_, "go": gl_, "program": prog1})
                 elif gf[0] != want:
                     ctx.notes.append("go run disagrees with the rational oracle on `%s`: %s (oracle %s)" % (ce, gl_, want))
     # probe: float -> unsigned integer conversion of an in-range value >= 2^(N-1)
@@ -1265,6 +1756,53 @@ def run(ctx):
                               k2, k1, v, want, ("prints %s" % got) if wst == "ok" else "traps: %s" % " ".join(wl_[-3:] + [werr[-120:]])[:200]),
                           {"program": src, "wa_status": wst, "wa": wl_[:3], "expected": want + " " + want})
     lap("stageE")
+    # ---- stage F: constants of EVERY basic kind (ints of each width, rune, f32, f64, string, bool), with basic and with NAMED types, observed as call
+    #      argument, run-time result, global, global struct field, local struct field, array element and map key; comparisons, `<=>`, len
+    pcases = gen_place_cases(ctx)
+    dist["stageF_cases"] = len(pcases)
+    pprogs = []
+    for named in (False, True):
+        for waonly in (False, True):
+            g_ = [c for c in pcases if c.waonly == waonly]
+            nparts = 2 if (ctx.tier == "quick" or waonly) else 8
+            for pi in range(nparts if not waonly else 1):
+                ch = g_[pi::(nparts if not waonly else 1)]
+                if ch:
+                    src, exp = build_place_program(ch, named)
+                    pprogs.append((ch, src, exp, named, not waonly, "p%d%d_%d" % (named, waonly, pi)))
+
+    def exec_pprog(a):
+        ch, src, exp, named, withgo, tag = a
+        return run_wa(ctx, warun, src, "prun_" + tag), (run_go(ctx, src, "pgorun_" + tag) if withgo else None)
+    with cf.ThreadPoolExecutor(8) as ex:
+        pres = list(ex.map(exec_pprog, pprogs))
+    for (ch, src, exp, named, withgo, tag), ((wst, wlines, werr), gres) in zip(pprogs, pres):
+        nk = "named-type:" if named else ""
+        if gres is not None:
+            if gres[0] != "ok" or len(gres[1]) != len(ch):
+                raise vlib.InfraError("go run of placement program %s failed: %s" % (tag, "\n".join(gres[1])[-1500:]))
+            for c, gl_, e in zip(ch, gres[1], exp):
+                if gl_.split() != e.split():
+                    ctx.notes.append("go run disagrees with the oracle on `%s`: %s (oracle %s)" % (subst_kinds(c.ce, "go", named), gl_, e))
+        if wst != "ok" or len(wlines) != len(ch):
+            ctx.violation(nk + "placement:wa-run-failed", "constant placement program (%s types) does not build/run under Wa (%s) %s%s" % (
+                "named" if named else "basic", wst, werr[-300:], "" if gres is None else "; `go run` of the same text succeeds"),
+                {"program": src, "wa_status": wst, "wa_tail": wlines[-3:], "stderr": werr, "expected": " ".join(exp)})
+            continue
+        for c, wl_, e in zip(ch, wlines, exp):
+            evaluations += 1
+            dist["F:" + c.tag + ":" + c.k] = dist.get("F:" + c.tag + ":" + c.k, 0) + 1
+            nontrivial.add(("place", named, c.k, c.tag, c.ce[:50]))
+            wf, ef = wl_.split(), e.split()
+            if wf == ef:
+                continue
+            one, oexp = build_place_program([c], named)
+            cols = PCOLS if c.pred is None else ["folded", "run-time", "global"]
+            bad = [cols[j] for j in range(min(len(cols), len(ef))) if j >= len(wf) or wf[j] != ef[j]] or ["output-shape"]
+            ctx.violation(nk + "placement:%s:%s:%s" % (c.tag, c.k, bad[0]), "`%s` (%s type): the compiled Wa program prints %s, expected %s — wrong at: %s" % (
+                subst_kinds(c.ce, "go", named), "named" if named else "basic", wl_, e, ", ".join(bad)),
+                {"program": one, "wa": wl_, "expected": " ".join(oexp), "wrong_columns": bad})
+    lap("stageF")
 
     cov = {
         "evaluations": evaluations,
@@ -1279,7 +1817,11 @@ def run(ctx):
                 "(chains of 2-3 operations where rounding after every typed step matters: ties at 2^24 / 2^53, 0.1+0.2, MaxFloat32 +- half ulp, overflow to Inf, "
                 "subnormals, divisors that round to 0; untyped chains rounded once; f32<->f64, float->int, int->float conversions of inexact values): the checker's "
                 "value vs an exact-rational oracle vs go/types, and the folded constant vs the same operators on parameters vs a global vs `go run`, floats printed as "
-                "bit patterns only. distinct_nontrivial counts distinct "
+                "bit patterns only. Stages B, C and E render their declarations/programs both with basic types and with NAMED types (type N_k k, "
+                "constants observed through a function taking the named type) and include the Wa-only `<=>`; stage F: constants of every basic kind incl. string, bool, "
+                "rune with basic and named types as call argument / global / struct field / array element / map key, plus comparisons, `<=>` and len. A tie step "
+                "re-extracts the exported functions and operator tokens of internal/constant, the checker's operator tokens, the constant-folding builtins and the "
+                "back end's constant kinds from the current source and breaks if one of them is not claimed by a generator stream. distinct_nontrivial counts distinct "
                 "(operation/shape, operator, kind, sign/zero/bit-length class of each operand, accepted?) tuples of stages A and B",
         "samples": samples,
         "distribution": dist,
